@@ -600,10 +600,10 @@ def check(prop, tier, seed, replay=None):
             for e in spec["engines"]:
                 n = e[tier]
                 etier = tier
-                agg = engine_run(prop, e["name"], seed, n, etier, with_model=drv_ok)
+                agg = engine_run(prop, e["name"], seed, n, etier, with_model=drv_ok and e.get("model", True))
                 if (agg["disagree"] or escalate) and not agg["monitors"] and tier == "quick":
                     # search for a concrete failing input with the thorough generator
-                    agg2 = engine_run(prop, e["name"], seed + 1, e["thorough"], "thorough", with_model=drv_ok)
+                    agg2 = engine_run(prop, e["name"], seed + 1, e["thorough"], "thorough", with_model=drv_ok and e.get("model", True))
                     agg["monitors"] += agg2["monitors"]
                     agg["disagree"] += agg2["disagree"]
                     agg["evaluations"] += agg2["evaluations"]
